@@ -43,6 +43,17 @@ func walkLexFunc(r *lexRoles, fd *ast.FuncDecl, init *lexState, bind map[types.O
 			return IsPanicCall(info, s)
 		},
 		OnCond: func(st *lexState, cond ast.Expr, taken bool) (*lexState, bool) {
+			if b, ok := ast.Unparen(cond).(*ast.BinaryExpr); ok && (b.Op == token.EQL || b.Op == token.NEQ) {
+				// both sides known constants (e.g. a local still holding its zero value): decided
+				l, r := ev.eval(st, b.X), ev.eval(st, b.Y)
+				if l.k == lvConst && r.k == lvConst && l.c != nil && r.c != nil && l.c.Kind() == constant.Int && r.c.Kind() == constant.Int {
+					same := constant.Compare(l.c, token.EQL, r.c)
+					if (same == (b.Op == token.EQL)) != taken {
+						return st, false
+					}
+					return st, true
+				}
+			}
 			f, ok := ev.condFact(st, cond, taken)
 			st.decided = append(st.decided, fmt.Sprintf("%s:%v", exprStr(cond), taken))
 			if !ok {
@@ -154,6 +165,8 @@ func walkLexFunc(r *lexRoles, fd *ast.FuncDecl, init *lexState, bind map[types.O
 							for i, n := range vs.Names {
 								if i < len(vs.Values) {
 									st.env[info.Defs[n]] = ev.eval(st, vs.Values[i])
+								} else if b, ok := info.Defs[n].Type().Underlying().(*types.Basic); ok && b.Info()&types.IsInteger != 0 {
+									st.env[info.Defs[n]] = lv{k: lvConst, c: constant.MakeInt64(0)}
 								} else {
 									st.env[info.Defs[n]] = lv{desc: "zero " + n.Name}
 								}
@@ -2232,4 +2245,135 @@ func lexEscapeFuncs(r *lexRoles) (seq, part *ast.FuncDecl) {
 		part = parts[0]
 	}
 	return
+}
+
+
+// ---------------------------------------------------------------------------
+// R-lex-comment: the comment skippers consume exactly a string of the grammar's
+// comment production (bounded language inclusion over the enumerated paths).
+
+func init() {
+	register(&Rule{ID: "R-lex-comment", Floor: 2, Run: ruleLexComment,
+		Doc: "comments are layout (grammar.ebnf: comment = '//' {CHAR} LF? | '/*' {CHAR} '*/'): for every alternative of the production, the skip routine NextToken enters on the opener is walked from that entry context (loops unrolled 3 times, every feasible exit enumerated with the rune facts of its path); an exit that is not at end of input must have consumed the whole opener before the runes that were recognised as the terminator (no overlap: at least len(opener)+len(terminator) runes), and the last runes consumed must be the terminator. A skipper that lets the opener's own runes take part in the terminator match ends the comment early and turns comment text into tokens."})
+}
+
+func ruleLexComment(c *Ctx) []Obligation {
+	r := discoverLexRoles(c)
+	info := r.info
+	gram := readGrammar(c)
+	prod := regexpFind(gram, `(?s)\ncomment\s*=(.*?);`)
+	if prod == "" {
+		prod = regexpFind(gram, `(?s)\ncomment\s*=(.*?)\n\s*\n`)
+	}
+	type alt struct{ open, term string }
+	var alts []alt
+	for _, a := range strings.Split(prod, "|") {
+		lits := regexpGroupsAll(a, `'([^']+)'`)
+		if len(lits) == 0 {
+			continue
+		}
+		al := alt{open: lits[0]}
+		if len(lits) >= 2 {
+			al.term = lits[len(lits)-1]
+		} else if strings.Contains(a, "LF") {
+			al.term = "\n"
+		}
+		alts = append(alts, al)
+	}
+	if len(alts) == 0 {
+		return []Obligation{{Key: "grammar.ebnf comment", Status: Undecided, Detail: "could not read the comment production from grammar.ebnf"}}
+	}
+	// entry contexts of the void Lexer methods NextToken calls
+	nt := c.MustFunc("homescript/lexer", "Lexer", "NextToken")
+	top := scanWalk(r, nt, nil)
+	var obs []Obligation
+	for _, al := range alts {
+		o := Obligation{Key: fmt.Sprintf("comment %q…%q|skipper consumes opener, body, terminator", al.open, strings.ReplaceAll(al.term, "\n", "LF")), Nontrivial: true}
+		// the call whose entry facts spell the opener
+		var fd *ast.FuncDecl
+		var entry []charFact
+		for _, cs := range top.calls {
+			ok := true
+			for i, ch := range []rune(al.open) {
+				found := false
+				for _, f := range cs.facts {
+					if f.off == i && f.kind == fEq && f.r == ch {
+						found = true
+					}
+				}
+				if !found {
+					ok = false
+				}
+			}
+			if !ok {
+				continue
+			}
+			cand := FuncDecl(r.pkg, "Lexer", cs.fn)
+			if cand == nil || cand.Type.Results != nil && len(cand.Type.Results.List) > 0 {
+				continue
+			}
+			fd, entry = cand, cs.facts
+		}
+		if fd == nil {
+			o.Status, o.Detail = Undecided, fmt.Sprintf("no result-less Lexer method is entered from NextToken on the opener %q", al.open)
+			obs = append(obs, o)
+			continue
+		}
+		o.Pos = c.Pos(fd.Pos())
+		lexUnrollOverride = 3
+		init := &lexState{env: map[types.Object]lv{}}
+		init.facts = append(init.facts, entry...)
+		res, overflow, unsupported, _ := walkLexFunc(r, fd, init, nil)
+		lexUnrollOverride = 0
+		if overflow || len(unsupported) > 0 {
+			o.Status, o.Detail = Undecided, "path enumeration overflow / unsupported control flow in "+fd.Name.Name
+			obs = append(obs, o)
+			continue
+		}
+		need := len([]rune(al.open)) + len([]rune(al.term))
+		var bad []string
+		terminated, atEOF := 0, 0
+		for _, pr := range res {
+			if pr.o.kind == cPanic {
+				continue
+			}
+			st := pr.st
+			// end of input seen on this path (a nil fact at or before the cursor+1)?
+			eof := false
+			for _, f := range st.facts {
+				if f.kind == fNil && f.off <= st.off+1 {
+					eof = true
+				}
+			}
+			if eof {
+				atEOF++
+				continue
+			}
+			terminated++
+			tr := []rune(al.term)
+			okTerm := st.off >= need
+			if okTerm {
+				for i, ch := range tr {
+					_, _, eq, has := st.known(st.off - len(tr) + i)
+					if !has || eq != ch {
+						okTerm = false
+					}
+				}
+			}
+			if !okTerm {
+				bad = append(bad, fmt.Sprintf("exit after consuming %d rune(s) [%s]: a complete %q…%q comment has at least %d and ends in the terminator (decisions: %s)", st.off, st.factString(), al.open, strings.ReplaceAll(al.term, "\n", "LF"), need, strings.Join(st.decided, ", ")))
+			}
+		}
+		_ = info
+		switch {
+		case len(bad) > 0:
+			o.Status, o.Detail = Violated, strings.Join(uniqStrings(bad), "; ")
+		case terminated == 0:
+			o.Status, o.Detail = Undecided, fmt.Sprintf("no terminated exit of %s was enumerated (%d end-of-input exits)", fd.Name.Name, atEOF)
+		default:
+			o.Status, o.Detail = Discharged, fmt.Sprintf("%s: %d terminated exit path(s) each consumed the opener, then the body, and end in the terminator; %d end-of-input exit(s)", fd.Name.Name, terminated, atEOF)
+		}
+		obs = append(obs, o)
+	}
+	return obs
 }
